@@ -61,8 +61,10 @@ func report(prop, tier string, seed int, ps *propSpec, w *world, rr *runResult, 
 		ok := o.status == "unsat"
 		if kf, isKnown := lookupKnown(known, o.name); isKnown {
 			if !ok {
-				knownSeen[o.name] = true
-				fmt.Printf("KNOWN-FINDING: property=%s %s [%s]\n", prop, kf.What, o.name)
+				if !knownSeen[kf.What] {
+					fmt.Printf("KNOWN-FINDING: property=%s %s [%s]\n", prop, kf.What, o.name)
+				}
+				knownSeen[kf.What] = true
 			} else {
 				fmt.Printf("NOTE: known finding %s now discharges (consider marking it fixed)\n", o.name)
 			}
@@ -133,17 +135,38 @@ func report(prop, tier string, seed int, ps *propSpec, w *world, rr *runResult, 
 	trusted = append(trusted, "golang.org/x/tools go/ssa builder (SSA is built from the same typed syntax the compiler sees)",
 		"govc VC generator (/verif/govc) and its memory model (Burstall-Bornat heap per field; slices as (arr,off,len,cap))",
 		"SMT solvers: z3 4.8.12, z3-new 5.1.0, cvc5 1.0.x (first definitive answer wins)")
+	// contracts relied upon at call sites: trusted ones, and ones whose own verification
+	// is incomplete (or not part of this property's run) — both are assumptions.
+	undisByFn := map[string]int{}
+	verifiedFn := map[string]bool{}
+	for _, f := range rr.funcs {
+		if len(f.oos) == 0 {
+			verifiedFn[f.fn] = true
+		}
+	}
+	for _, o := range rr.obls {
+		if o.expect != "sat" && o.status != "unsat" && !lg.isClaimed(o) {
+			undisByFn[o.fn]++
+		}
+	}
+	var assumedContracts []string
 	for u := range usedContracts {
-		k := ""
-		for kk, fc := range w.cs.funcs {
+		for _, fc := range w.cs.funcs {
 			if shortPkg(fc.pkgPath)+"."+fc.key == u {
-				k = kk
-				if fc.trusted {
+				switch {
+				case fc.trusted || fc.isIface:
 					trusted = append(trusted, "trusted contract (not checked against a body): "+u+" ["+fc.where+"]")
+				case !verifiedFn[u]:
+					assumedContracts = append(assumedContracts, u+": contract used at call sites, its body is not verified in this property's run")
+				case undisByFn[u] > 0:
+					assumedContracts = append(assumedContracts, fmt.Sprintf("%s: contract used at call sites, %d of its own obligations are not claimed/discharged", u, undisByFn[u]))
 				}
 			}
 		}
-		_ = k
+	}
+	sort.Strings(assumedContracts)
+	for f := range w.libFrames {
+		assumedContracts = append(assumedContracts, "library frame assumed (writes only memory reachable from its arguments): "+f)
 	}
 	trusted = append(trusted, ps.Trusted...)
 	sort.Strings(trusted[3:])
@@ -152,6 +175,7 @@ func report(prop, tier string, seed int, ps *propSpec, w *world, rr *runResult, 
 		assumptions = append(assumptions, a)
 	}
 	sort.Strings(assumptions)
+	assumptions = append(assumptions, assumedContracts...)
 	assumptions = append(assumptions,
 		"machine integers: modelled as mathematical integers with exact Go wrap-around on every +,-,*,conversion (no overflow assumed away); non-constant shifts and &,|,^ with non-mask operands are uninterpreted (sound, incomplete)",
 		"method receivers of pointer type are non-nil inside the method (callers get a nilrecv obligation at contracted call sites)",
@@ -180,6 +204,7 @@ func report(prop, tier string, seed int, ps *propSpec, w *world, rr *runResult, 
 		"functions_under_contract":          fnNames,
 		"functions_out_of_subset":           oosNames,
 		"unbound_contracts":                 rr.unbound,
+		"contracts_assumed_not_verified":     assumedContracts,
 		"ledger_obligations_not_generated":  missing,
 		"generated_obligations_total":       len(rr.obls),
 		"undecided_not_claimed":             undecidedNotClaimed,
@@ -234,7 +259,7 @@ func lookupKnown(known map[string]knownFinding, name string) (knownFinding, bool
 		return k, true
 	}
 	for pre, k := range known {
-		if strings.HasPrefix(name, pre) && (len(name) == len(pre) || name[len(pre)] == '@' || name[len(pre)] == '~' || name[len(pre)] == ':') {
+		if strings.HasPrefix(name, pre) && (len(name) == len(pre) || name[len(pre)] == '~') {
 			return k, true
 		}
 	}
